@@ -2,7 +2,17 @@ import Cactus.Lemmas.Final
 import Cactus.Lemmas.Once
 import Cactus.Lemmas.Basic
 /-!
-# C11 — a panicking destructor cannot cause double destruction or dangling state (first layer)
+# C11 — a panicking destructor cannot cause double destruction or dangling state
+
+What is proved here:
+* one-step lemmas about `panic` and the unwinding: `C11_panic_keeps_only_cleanup`,
+  `C11_double_panic_aborts`, `C11_panic_heap`, `C11_no_release_after_panic`, `C11_panic_propagates`;
+* whole histories with panicking destructors, no hypothesis on the history, every state during and
+  after an unwinding: `C11_no_double_destruction`, `C11_invariants_survive_panic`;
+* examples: a destructor panics in the middle of a group teardown (log, leak, invariants after and
+  during the unwinding), and a double panic that aborts.
+Not proved: that the interrupted teardown's allocations are *reclaimed* — they are not, they leak
+(drop.rs:196-213, 298-338), which is why C04 is stated for panic-free histories.
 -/
 namespace Cactus
 open State
@@ -56,5 +66,89 @@ weak counts are exact (so Weak handles to the group's members keep reporting the
 their allocations valid). -/
 theorem C11_invariants_survive_panic {s : State} (h : Reachable s) (he : s.err = none) :
     s.InvO ∧ s.InvB ∧ s.InvC ∧ s.InvW ∧ s.InvK := (reachable_core h he).1
+
+/-! ## Non-vacuity: a destructor panics in the middle of a group teardown
+
+A 3-ring `0 → 1 → 2 → 0` built with `link`, a Weak to member 0; member 1's destructor is set to
+panic.  The last `drop` collects the ring in the order `[0, 1, 2]` given by the hint: 0's destructor
+runs, 1's destructor panics, the unwinding still drops the remaining value (2's destructor runs:
+drop glue of the `inners` vector) but skips `phase3`, so the three allocations leak; the panic is
+reported to the caller (`panicked`), the members stay dead, and the program goes on. -/
+
+def panicHistory : List (Op × List Nat) :=
+  [(.act .new, []), (.act .new, []), (.act .new, []),
+   (.act (.clone 1), []), (.act (.link 3 0), []),       -- 0 → 1
+   (.act (.clone 2), []), (.act (.link 3 1), []),       -- 1 → 2
+   (.act (.clone 0), []), (.act (.link 3 2), []),       -- 2 → 0
+   (.act (.downgrade 0), []),                           -- Weak to 0
+   (.act (.setPanic 1), []),                            -- 1's destructor panics
+   (.act (.drop 1), []), (.act (.drop 1), []),          -- program's handles to 1, 2
+   (.act (.drop 0), [0, 1, 2]),                         -- collects {0, 1, 2}; 1's destructor panics
+   (.act (.upgrade 0), []),                             -- the members stay dead: None
+   (.act .new, []), (.act (.drop 0), [])]               -- the program goes on
+
+/-- by evaluation: no machine error; each of the three values destroyed exactly once, the panic
+reported, nothing of the interrupted teardown released (strong, weak, table gone, value present,
+freed, implicit weak still owned), later operations unaffected -/
+example : let s := run panicHistory
+    s.err = none ∧ s.unwinding = false ∧ s.stack = []
+    ∧ s.log = [.traced 1 3 4, .traced 2 3 4, .traced 0 3 4,
+               .destroyed 0, .destroyed 1, .destroyed 2, .panicked, .ret 0, .destroyed 3, .freed 3]
+    ∧ s.heap.map (fun ob => (ob.strong, ob.weak, ob.links.isNone, ob.value.isSome, ob.freed, ob.implicit))
+      = [(.uninit, 2, true, false, false, true), (.uninit, 1, true, false, false, true),
+         (.uninit, 1, true, false, false, true), (.uninit, 0, true, false, true, false)] := by
+  decide +kernel
+
+/-- `C11_no_double_destruction` and `C11_invariants_survive_panic` instantiated at that state -/
+example : (run panicHistory).destroyedVids.Nodup ∧ (run panicHistory).freedIds.Nodup :=
+  C11_no_double_destruction (run_reachable panicHistory)
+
+example : (run panicHistory).destroyedVids = [0, 1, 2, 3] ∧ (run panicHistory).freedIds = [3] := by
+  decide +kernel
+
+example : (run panicHistory).InvO ∧ (run panicHistory).InvB ∧ (run panicHistory).InvC
+    ∧ (run panicHistory).InvW ∧ (run panicHistory).InvK :=
+  C11_invariants_survive_panic (run_reachable panicHistory) (by decide +kernel)
+
+/-- e.g. the weak count of the leaked member 0 is still exact: the program's Weak plus the implicit
+weak reference that nobody will release any more (`2 = 1 + 0 + 0 + 1`) -/
+example : (run panicHistory).weakNat 0 = (run panicHistory).extW 0 + (run panicHistory).inHeapW 0
+      + (run panicHistory).pendW 0 + (run panicHistory).implicitNat 0 :=
+  (C11_invariants_survive_panic (run_reachable panicHistory) (by decide +kernel)).2.2.2.1 0
+    (by decide +kernel)
+
+/-- … and they hold in the middle of the unwinding as well: the state right after the panic
+(`Reachable` by construction), where only drop glue is left on the stack -/
+def panicStart : State :=
+  applyOp ((run (panicHistory.take 13)).begin [0, 1, 2]) (.act (.drop 0))
+
+def panicMid : State :=
+  step (step (step (step (step (step (step (step (step panicStart))))))))
+
+theorem panicMid_reachable : Reachable panicMid :=
+  have h0 : Reachable panicStart :=
+    .op (.act (.drop 0)) [0, 1, 2] (run_reachable (panicHistory.take 13)) (by decide +kernel)
+  .step (.step (.step (.step (.step (.step (.step (.step (.step h0))))))))
+
+example : panicMid.unwinding = true ∧ panicMid.err = none
+    ∧ panicMid.stack = [.dropFields [2] [],
+        .dropVal { vid := 2, held := [0], weaks := [], script := [], panics := false }]
+    ∧ panicMid.log.drop 3 = [.destroyed 0, .destroyed 1] := by
+  decide +kernel
+
+example : panicMid.InvO ∧ panicMid.InvB ∧ panicMid.InvC ∧ panicMid.InvW ∧ panicMid.InvK :=
+  C11_invariants_survive_panic panicMid_reachable (by decide +kernel)
+
+/-- a second panic while the first one unwinds (both members of a two-cycle panic) terminates the
+process: the machine stops in the sticky `abort` state (`C11_double_panic_aborts`) -/
+def doublePanicHistory : List (Op × List Nat) :=
+  [(.act .new, []), (.act .new, []),
+   (.act (.clone 1), []), (.act (.link 2 0), []),       -- 0 → 1
+   (.act (.clone 0), []), (.act (.link 2 1), []),       -- 1 → 0
+   (.act (.setPanic 0), []), (.act (.setPanic 1), []),
+   (.act (.drop 1), []), (.act (.drop 0), [])]
+
+example : (run doublePanicHistory).err = some .abort
+    ∧ (run doublePanicHistory).destroyedVids = [1, 0] := by decide +kernel
 
 end Cactus
